@@ -236,14 +236,23 @@ def ev_table(case, ctx):
             if got != exp:
                 ctx.violation("rows with an undefined coordinate were treated as inside a region around %s: kept %r, expected %r (%s)" % (
                     rname, got, exp, sig2), "table_undefined|" + sig2)
-    for (rac, decc), negate in itertools.product([("ra", "dec"), ("RAJ2000", "DEJ2000")], [False, True]):
+    for (rac, decc), negate, distract in itertools.product([("ra", "dec"), ("RAJ2000", "DEJ2000")], [False, True], [False, True]):
         t = Table()
         t[rac] = np.array([coords[n][0] for n in names], dtype=float)
         t[decc] = np.array([coords[n][1] for n in names], dtype=float)
+        if distract:
+            # other coordinate-like columns (a cross-matched table): same names in another case, suffixed names; they hold
+            # positions with the OPPOSITE membership and must be ignored
+            opp_ra = np.array([(ra0 + 20 if expect_inside[n] else ra0) for n in names], dtype=float)
+            opp_dec = np.array([(dec0 + 10 if expect_inside[n] else dec0) for n in names], dtype=float)
+            t[rac.swapcase()] = opp_ra
+            t[decc.swapcase()] = opp_dec
+            t[rac + "_2"] = opp_ra
+            t[decc + "_2"] = opp_dec
         t["tag"] = np.array(names, dtype="U12") if names else np.array([], dtype="U12")
         t["val"] = np.arange(len(names), dtype=float) * 1.5
         keep_exp = [n for n in names if (expect_inside[n] if negate else not expect_inside[n])]
-        sig = "rows=%s,negate=%s,cols=%s" % ("+".join(names) or "none", negate, rac)
+        sig = "rows=%s,negate=%s,cols=%s%s" % ("+".join(names) or "none", negate, rac, ",distractors" if distract else "")
         ctx.count("mask_table")
         if names:
             ctx.nontrivial(sig)
@@ -261,7 +270,7 @@ def ev_table(case, ctx):
         elif vals != [1.5 * names.index(n) for n in keep_exp]:
             ctx.violation("mask_table changed another column (%s)" % sig, "table_cols|" + sig)
         # through files
-        if rac == "ra" and names:
+        if rac == "ra" and names and not distract:
             for ext in ("csv", "fits"):
                 fin = os.path.join(d, "cat_in." + ext)
                 fout = os.path.join(d, "cat_out." + ext)
